@@ -182,13 +182,16 @@ mjd2hij(hij_typ_t t, hij_epo_t e, mjd_t j)
 {
 /* integer only version of Gent's converter */
 	const unsigned int z = j + 2400000U - epo[e];
-	const unsigned int cyc = z / 10631U;
-	const unsigned int z1 = z % 10631U;
-	const unsigned int k = (3000U * z1 - tsh[t]) / 1063100U - !z1;
-	const unsigned int z2 = z1 - (((int)k * 1063100 + tsh[t]) / 3000) + !z1;
+	/* days of a cycle count from 1 to 10631, the cycle's last day
+	 * must not be mistaken for day 0 of the next one */
+	const unsigned int cyc = (z - 1U) / 10631U;
+	const unsigned int z1 = (z - 1U) % 10631U + 1U;
+	const unsigned int k = (3000U * z1 - tsh[t]) / 1063100U;
+	const unsigned int z2 = z1 - (k * 1063100U + tsh[t]) / 3000U;
 	/* output */
 	const unsigned int y = 30U * cyc + k;
-	const unsigned int m = (10000U * z2 + 285001U) / 295000U;
+	/* day 355 of an intercalary year is the 30th of month 12 */
+	const unsigned int m = z2 < 355U ? (10000U * z2 + 285001U) / 295000U : 12U;
 	const unsigned int d = z2 - (295001 * m - 290000U) / 10000U;
 	return (struct ymd_s){y, m, d};
 }
@@ -229,9 +232,11 @@ __hij_inty_p(hij_typ_t t, hij_epo_t UNUSED(e), unsigned int y)
  * type III: 2, 5, 8, 10, 13, 16, 19, 21, 24, 27 & 29 as intercalary years
  * type IV:  2, 5, 8, 11, 13, 16, 19, 21, 24, 27 & 30 as intercalary years */
 	const unsigned int k = y % 30U;
-	const unsigned int z1 = ((k * 1063100U + tsh[t]) / 3000U + 355U) % 10631U;
-	const unsigned int kr = (3000U * z1 - tsh[t]) / 1063100U - !z1;
-	return z1 - (((int)kr * 1063100 + tsh[t]) / 3000) + !z1 != 1;
+	/* day 355 of year K counted from the beginning of the cycle */
+	const unsigned int z1 = (k * 1063100U + tsh[t]) / 3000U + 355U;
+	/* and the year that day belongs to */
+	const unsigned int kr = (3000U * z1 - tsh[t]) / 1063100U;
+	return kr == k;
 }
 
 static __attribute__((const, pure)) inline unsigned int
